@@ -259,7 +259,82 @@ fn lockstep_rounds(seed: u64, reference_only: bool, reference_file: Option<Strin
     }
 }
 
+/// Tracing rounds: one thread runs `parse_with_trace` on a text nested a few hundred rule calls deep while two others
+/// run short traced parses one after the other (whatever the built-in tracer shares between threads - indentation,
+/// buffers, counters - is grown by one thread while the others begin and end traces).
+fn trace_rounds(seed: u64, parens: usize) {
+    let mut rng = Rng(seed ^ 0x7ACE);
+    let pick = |g: &str, rng: &mut Rng| {
+        let vs: Vec<_> = VARIANTS.iter().filter(|v| v.grammar == g).collect();
+        vs[(rng.next() % vs.len() as u64) as usize]
+    };
+    // grammar `chain`: one rule call per pair of parentheses, matched by the first alternative of the root (no second
+    // descent); every traced line costs Miri tens of milliseconds, so the depth is the caller's choice
+    let depth = parens + (rng.next() % 15) as usize;
+    let v = pick("chain", &mut rng);
+    let deep = Job { variant: v.name, rule: v.exported[0], input: format!("{}x{}!", "(".repeat(depth), ")".repeat(depth)), entry: Entry::Trace, ctx: Ctx::default() };
+    let mut lists: Vec<Vec<Job>> = vec![vec![deep], Vec::new(), Vec::new()];
+    for t in 1..3 {
+        for _ in 0..5 {
+            let (g, inputs) = INPUTS[(rng.next() % INPUTS.len() as u64) as usize];
+            if !VARIANTS.iter().any(|v| v.grammar == g) || g.starts_with("reent") {
+                continue;
+            }
+            let v = pick(g, &mut rng);
+            let input = inputs[(rng.next() % inputs.len() as u64) as usize];
+            lists[t].push(Job { variant: v.name, rule: v.exported[0], input: input.chars().take(2).collect(), entry: Entry::Trace, ctx: Ctx { retval: 7, a_count: 3, calls: 0 } });
+        }
+    }
+    let barrier = Arc::new(std::sync::Barrier::new(3));
+    let deep_done = Arc::new(std::sync::atomic::AtomicBool::new(false));
+    let handles: Vec<_> = lists
+        .into_iter()
+        .enumerate()
+        .map(|(t, l)| {
+            let barrier = barrier.clone();
+            let deep_done = deep_done.clone();
+            std::thread::spawn(move || {
+                barrier.wait();
+                let mut out = Vec::new();
+                if t == 0 {
+                    out.extend(l.iter().map(|j| (j.clone(), run(j))));
+                    deep_done.store(true, std::sync::atomic::Ordering::SeqCst);
+                } else {
+                    // short traces begin and end for as long as the deep one is running (at most 40 rounds)
+                    for _round in 0..40 {
+                        out.extend(l.iter().map(|j| (j.clone(), run(j))));
+                        if deep_done.load(std::sync::atomic::Ordering::SeqCst) {
+                            break;
+                        }
+                    }
+                }
+                out
+            })
+        })
+        .collect();
+    let mut bad = 0;
+    let mut n = 0;
+    for h in handles {
+        for (j, got) in h.join().expect("thread") {
+            n += 1;
+            let reference = run(&Job { entry: Entry::Parse, ..j.clone() });
+            if got != reference {
+                bad += 1;
+                println!("DIFFERENCE traced parse ({}, {:?}): untraced sequential reference {:?}, traced concurrent {:?}", j.variant, j.input, reference, got);
+            }
+        }
+    }
+    if bad == 0 {
+        println!("MIRI_THREADS ok seed={seed} traced_jobs={n} threads=3");
+    } else {
+        std::process::exit(1);
+    }
+}
+
 fn main() {
+    if std::env::args().nth(3).as_deref() == Some("trace") {
+        return trace_rounds(std::env::args().nth(1).and_then(|s| s.parse().ok()).unwrap_or(1), std::env::args().nth(4).and_then(|s| s.parse().ok()).unwrap_or(45));
+    }
     if std::env::args().nth(3).as_deref() == Some("lockstep") {
         return lockstep_rounds(std::env::args().nth(1).and_then(|s| s.parse().ok()).unwrap_or(1), false, std::env::args().nth(4));
     }
